@@ -342,6 +342,9 @@ class Effects:
                 if isinstance(n.ast, ast.Call) and dotted(n.ast.func) == "dict.fromkeys" and len(n.ast.args) == 2 and isinstance(n.ast.args[1], ast.Constant) \
                         and self._const_str_tuple(fn, n.ast.args[0]) is not None:
                     return NONE  # dict.fromkeys(<constant tuple of strings>, <constant>)
+                if c.name == "builtins.getattr" and isinstance(n.ast, ast.Call) and len(n.ast.args) == 3 and not n.ast.keywords \
+                        and isinstance(n.ast.args[1], ast.Constant) and isinstance(n.ast.args[1].value, str):
+                    return NONE  # getattr(obj, "<name>", default): a missing attribute yields the default
                 out = set(prim_raises(c.name))
                 for t in targets:
                     out |= self.escapes.get(t.qname, NONE)
